@@ -595,7 +595,7 @@ SEARCH_MODEL_TRUSTED = [
 ]
 
 reg(Prop("C06", "Search returns a legal move unless the game is over; board left untouched",
-         ["Properties/C06.v", "Properties/C06_skel.v", "Properties/C06_model.v"],
+         ["Properties/C06.v", "Properties/C06_skel.v", "Properties/C06_model.v", "Properties/C06_closed.v"],
 
          ["Properties/C06.v", "Properties/C06_skel.v", "Properties/C06_closed.v"],
          [StreamCfg("c06", 20000, 150000, judge="judge_c06", model=False,
